@@ -5,7 +5,7 @@ from . import runprog as R
 PROP = "C05"
 CORR = "Corr.C05"
 REQUIRES = ["Gen.Handlers", "Model.Run", "Spec.Run", "Spec.C05"]
-PROOF_FILES = ["Proof/RunCore.v", "Proof/C05.v"]
+PROOF_FILES = ["Proof/RunCore.v", "Proof/RunExtra.v", "Proof/RunTable.v", "Proof/C05.v"]
 MANIFEST = {
     "text": "Coq theorems over all finite test programs whose bodies attach details (any names incl. ones colliding "
             "with generated names), make expectThat/assertThat mismatches carrying details, use fixtures carrying "
